@@ -76,6 +76,15 @@ pub trait ReadValue {
 
     /// Return the current position of the reader.
     fn position(&self) -> u64;
+
+    /// Return the position of the end of the input, if known.
+    ///
+    /// When this is known, fields whose length extends past the end of the
+    /// input are reported as errors before any attempt is made to read or
+    /// skip them.
+    fn end_position(&self) -> Option<u64> {
+        None
+    }
 }
 
 /// A Protocol Buffers primitive reader that returns owned values.
@@ -85,6 +94,9 @@ pub trait ReadValue {
 #[derive(Default)]
 pub struct ValueReader<R> {
     inner: R,
+
+    /// Position of the end of the input, if known.
+    end: Option<u64>,
 }
 
 impl<R: BufRead + Seek + Position> ValueReader<R> {
@@ -94,21 +106,34 @@ impl<R: BufRead + Seek + Position> ValueReader<R> {
     /// for convenient wrappers for this which create readers from byte buffers
     /// and files.
     pub fn new(inner: R) -> Self {
-        Self { inner }
+        Self { inner, end: None }
     }
 }
 
 impl<T: AsRef<[u8]>> ValueReader<Cursor<T>> {
     /// Convenience method that creates a reader from a byte buffer.
     pub fn from_buf(buf: T) -> Self {
-        Self::new(Cursor::new(buf))
+        let end = buf.as_ref().len() as u64;
+        Self {
+            inner: Cursor::new(buf),
+            end: Some(end),
+        }
     }
 }
 
 impl ValueReader<ReadPos<BufReader<File>>> {
     /// Convenience method that creates a reader from a file.
     pub fn from_file(file: File) -> Self {
-        Self::new(ReadPos::new(BufReader::new(file)))
+        // The length is only meaningful for regular files.
+        let end = file
+            .metadata()
+            .ok()
+            .filter(|meta| meta.is_file())
+            .map(|meta| meta.len());
+        Self {
+            inner: ReadPos::new(BufReader::new(file)),
+            end,
+        }
     }
 }
 
@@ -159,6 +184,10 @@ impl<R: BufRead + Seek + Position> ReadValue for ValueReader<R> {
 
     fn position(&self) -> u64 {
         self.inner.position()
+    }
+
+    fn end_position(&self) -> Option<u64> {
+        self.end
     }
 }
 
@@ -266,8 +295,9 @@ pub(crate) struct LimitReader<'a, R: ReadValue> {
 impl<'a, R: ReadValue> LimitReader<'a, R> {
     /// Create a reader which reads up to `len` bytes of `inner`.
     pub fn new(inner: &'a mut R, len: u64) -> Self {
+        let end = inner.position().saturating_add(len);
         Self {
-            end: inner.position().saturating_add(len),
+            end: end.min(inner.end_position().unwrap_or(u64::MAX)),
             inner,
         }
     }
@@ -275,7 +305,7 @@ impl<'a, R: ReadValue> LimitReader<'a, R> {
     /// Create a sub-reader which reads up to `len` bytes of this reader.
     pub fn sub_limit(&mut self, len: u64) -> LimitReader<'_, R> {
         LimitReader {
-            end: self.inner.position().saturating_add(len),
+            end: self.inner.position().saturating_add(len).min(self.end),
             inner: self.inner,
         }
     }
@@ -335,6 +365,10 @@ impl<'a, R: ReadValue> ReadValue for LimitReader<'a, R> {
 
     fn position(&self) -> u64 {
         self.inner.position()
+    }
+
+    fn end_position(&self) -> Option<u64> {
+        Some(self.end)
     }
 }
 
